@@ -49,7 +49,7 @@ type c17World struct {
 	now     int64
 
 	cutoverDone map[string]string // channel|task -> how (commit / promote)
-	rewound     map[string]bool   // channel|task -> a non-workflow Advance was accepted after the cutover
+	rewound     map[string]string // channel|task -> what moved the task back out of its post-cutover phase
 	accepted    int
 	refused     int
 	cutovers    int
@@ -57,7 +57,7 @@ type c17World struct {
 
 func runC17(t *testing.T, r *simkit.Run) {
 	simkit.Bubble(t, r, func() {
-		w := &c17World{r: r, tp: r.Tape, model: newMigModel(), cutoverDone: map[string]string{}, rewound: map[string]bool{}}
+		w := &c17World{r: r, tp: r.Tape, model: newMigModel(), cutoverDone: map[string]string{}, rewound: map[string]string{}}
 		defer func() {
 			if w.n != nil {
 				w.n.close()
@@ -409,6 +409,35 @@ func (w *c17World) commit(maxBatch, dupBias int, noFaults bool) {
 	}
 	single := len(batch) == 1
 
+	// at most one active task per channel, and the active lookup agrees
+	for _, ch := range w.chans {
+		var active []string
+		for _, k := range sortedKeys(postTasks) {
+			if t := postTasks[k]; t.ChannelID == ch.id && !terminal(*t) {
+				active = append(active, t.TaskID)
+			}
+		}
+		if len(active) > 1 {
+			r.FailSig("two-active-tasks", "", fmt.Sprintf("channel %s has active tasks %v after index %d", ch.id, active, w.index), nil)
+			return
+		}
+		t, ok, err := w.n.db.ForHashSlot(ch.hs).GetActiveChannelMigrationTask(context.Background(), ch.id, ch.typ)
+		if err != nil {
+			r.Infra("get active: %v", err)
+			return
+		}
+		if ok != (len(active) == 1) || (ok && t.TaskID != active[0]) {
+			r.FailSig("active-index-disagrees", "", fmt.Sprintf("channel %s: active lookup says (%v,%s), task rows say %v", ch.id, ok, t.TaskID, active), nil)
+			return
+		}
+		ph := metadb.ChannelMigrationPhase(0)
+		if len(active) == 1 {
+			ph = postTasks[tkey(ch.id, active[0])].Phase
+		}
+		r.State("c17", ch.id, len(active), ph, postMetas[ch.id] != nil && postMetas[ch.id].WriteFenceToken != "")
+	}
+
+
 	for i := range batch {
 		it := &batch[i]
 		res := string(results[i])
@@ -475,6 +504,15 @@ func (w *c17World) commit(maxBatch, dupBias int, noFaults bool) {
 			return
 		}
 		implRefused := res == fsm.ApplyResultStaleMeta
+		if single && !implRefused && c.kind != mkGC {
+			// the command ran alone: the rows it met and left are observed directly, so
+			// the statement is checked on them before anything is asked of the reference
+			oT, oM := postTasks[tk], postMetas[c.ch.id]
+			effective := (preT == nil) != (oT == nil) || (preT != nil && oT != nil && *preT != *oT) || !rtEqual(preM, oM)
+			if effective && !w.statement(c, tk, preT, preM, oT, oM) {
+				return
+			}
+		}
 		if c.kind == mkGC {
 			// retention cleanup is not a cutover step: accept what was removed as long as
 			// only expired terminal tasks were removed, then follow the store
@@ -525,79 +563,9 @@ func (w *c17World) commit(maxBatch, dupBias int, noFaults bool) {
 			r.Probe("accepted_noop:" + c.kind.String())
 			continue
 		}
-		// --- the statement of C17, checked on the rows the command met and left ---
-		if c.kind == mkCommit || c.kind == mkPromote {
-			var rg metadb.ChannelMigrationRuntimeGuard
-			if c.kind == mkCommit {
-				rg = c.commit.RuntimeGuard
-			} else {
-				rg = c.promote.RuntimeGuard
-			}
-			if preT == nil || preM == nil || !proofCurrent(*preT, *preM, preM.WriteFenceVersion) || !ownsFence(*preT, *preM, preM.WriteFenceVersion) ||
-				rg.ExpectedFenceVersion != preM.WriteFenceVersion || rg.ExpectedChannelEpoch != preM.ChannelEpoch || rg.ExpectedLeaderEpoch != preM.LeaderEpoch || rg.ExpectedLeader != preM.Leader {
-				r.FailSig("cutover-without-current-proof", c.kind.String(), fmt.Sprintf("%s was accepted against task %s and row %s: the drain proof / guard does not describe the current row", c.desc, taskString(preT), rtString(preM)), nil)
-				return
-			}
-			if c.kind == mkPromote || (preT != nil && isLTKind(preT.Kind)) {
-				w.cutoverDone[tk] = c.kind.String()
-				w.cutovers++
-				r.Probe("cutover_committed:" + c.kind.String())
-			} else {
-				r.Probe("embedded_transfer_committed")
-			}
-		}
-		if c.kind == mkAdvance && c.rogue && w.cutoverDone[tk] != "" {
-			w.rewound[tk] = true
-		}
-		if c.kind == mkAbort && postT != nil && postT.Status == stAborted && w.cutoverDone[tk] != "" {
-			sig := "direct"
-			if w.rewound[tk] {
-				sig = "phase-rewound-by-advance"
-			}
-			r.FailSig("abort-after-cutover", sig, fmt.Sprintf("%s aborted task %s whose %s had been accepted before (task met: %s)", c.desc, tk, w.cutoverDone[tk], taskString(preT)), nil)
+		if !single && !w.statement(c, tk, preT, preM, postT, postM) {
 			return
 		}
-		if preM != nil && postM != nil && preM.WriteFenceToken != "" && preM.WriteFenceToken != c.guardTaskID() && fenceOf(preM) != fenceOf(postM) {
-			r.FailSig("foreign-fence-changed", c.kind.String(), fmt.Sprintf("%s (task %s) changed the write fence %s -> %s owned by task %q", c.desc, c.guardTaskID(), fenceOf(preM), fenceOf(postM), preM.WriteFenceToken), nil)
-			return
-		}
-		if postM != nil {
-			if why := metaValid(*postM); why != "" {
-				r.FailSig("invalid-meta-after-step", c.kind.String(), fmt.Sprintf("%s left row %s: %s", c.desc, rtString(postM), why), nil)
-				return
-			}
-			if preM != nil && int64(len(preM.ISR)) >= preM.MinISR && int64(len(postM.ISR)) < postM.MinISR {
-				r.FailSig("invalid-meta-after-step", c.kind.String()+"/minisr", fmt.Sprintf("%s left |ISR|=%d below MinISR=%d (before: %s after: %s)", c.desc, len(postM.ISR), postM.MinISR, rtString(preM), rtString(postM)), nil)
-				return
-			}
-		}
-	}
-	// at most one active task per channel, and the active lookup agrees
-	for _, ch := range w.chans {
-		var active []string
-		for _, k := range sortedKeys(postTasks) {
-			if t := postTasks[k]; t.ChannelID == ch.id && !terminal(*t) {
-				active = append(active, t.TaskID)
-			}
-		}
-		if len(active) > 1 {
-			r.FailSig("two-active-tasks", "", fmt.Sprintf("channel %s has active tasks %v after index %d", ch.id, active, w.index), nil)
-			return
-		}
-		t, ok, err := w.n.db.ForHashSlot(ch.hs).GetActiveChannelMigrationTask(context.Background(), ch.id, ch.typ)
-		if err != nil {
-			r.Infra("get active: %v", err)
-			return
-		}
-		if ok != (len(active) == 1) || (ok && t.TaskID != active[0]) {
-			r.FailSig("active-index-disagrees", "", fmt.Sprintf("channel %s: active lookup says (%v,%s), task rows say %v", ch.id, ok, t.TaskID, active), nil)
-			return
-		}
-		ph := metadb.ChannelMigrationPhase(0)
-		if len(active) == 1 {
-			ph = postTasks[tkey(ch.id, active[0])].Phase
-		}
-		r.State("c17", ch.id, len(active), ph, postMetas[ch.id] != nil && postMetas[ch.id].WriteFenceToken != "")
 	}
 	// retention cleanup inside a multi-command batch: follow the store for expired terminal tasks
 	for i := range batch {
@@ -625,4 +593,64 @@ func (w *c17World) commit(maxBatch, dupBias int, noFaults bool) {
 	if len(batch) > 1 {
 		r.Probe("multi_command_batch")
 	}
+}
+
+// statement checks the clauses of C17 on the rows an accepted, effective command
+// met (preT, preM) and left (postT, postM).
+func (w *c17World) statement(c *migCmd, tk string, preT *mTask, preM *rtMeta, postT *mTask, postM *rtMeta) bool {
+	r := w.r
+	if c.kind == mkCommit || c.kind == mkPromote {
+		var rg metadb.ChannelMigrationRuntimeGuard
+		if c.kind == mkCommit {
+			rg = c.commit.RuntimeGuard
+		} else {
+			rg = c.promote.RuntimeGuard
+		}
+		if preT == nil || preM == nil || !proofCurrent(*preT, *preM, preM.WriteFenceVersion) || !ownsFence(*preT, *preM, preM.WriteFenceVersion) ||
+			rg.ExpectedFenceVersion != preM.WriteFenceVersion || rg.ExpectedChannelEpoch != preM.ChannelEpoch || rg.ExpectedLeaderEpoch != preM.LeaderEpoch || rg.ExpectedLeader != preM.Leader {
+			r.FailSig("cutover-without-current-proof", c.kind.String(), fmt.Sprintf("%s was accepted against task %s and row %s: the drain proof / guard does not describe the current row", c.desc, taskString(preT), rtString(preM)), nil)
+			return false
+		}
+		if c.kind == mkPromote || (preT != nil && isLTKind(preT.Kind)) {
+			w.cutoverDone[tk] = c.kind.String()
+			w.cutovers++
+			r.Probe("cutover_committed:" + c.kind.String())
+		} else {
+			r.Probe("embedded_transfer_committed")
+		}
+	}
+	if w.cutoverDone[tk] != "" && preT != nil && postT != nil && phaseIn(preT.Phase, phVerifyLdr, phVerifyMem, phClear) && !phaseIn(postT.Phase, phVerifyLdr, phVerifyMem, phClear) {
+		switch {
+		case c.kind == mkAdvance:
+			w.rewound[tk] = "phase-rewound-by-advance"
+		case c.kind == mkResetFence:
+			w.rewound[tk] = "phase-rewound-by-reset-fence"
+		default:
+			w.rewound[tk] = "phase-rewound-by-" + c.kind.String()
+		}
+		r.Probe("post_cutover_task_" + w.rewound[tk])
+	}
+	if c.kind == mkAbort && postT != nil && postT.Status == stAborted && w.cutoverDone[tk] != "" {
+		sig := "direct"
+		if w.rewound[tk] != "" {
+			sig = w.rewound[tk]
+		}
+		r.FailSig("abort-after-cutover", sig, fmt.Sprintf("%s aborted task %s whose %s had been accepted before (task met: %s)", c.desc, tk, w.cutoverDone[tk], taskString(preT)), nil)
+		return false
+	}
+	if preM != nil && postM != nil && preM.WriteFenceToken != "" && preM.WriteFenceToken != c.guardTaskID() && fenceOf(preM) != fenceOf(postM) {
+		r.FailSig("foreign-fence-changed", c.kind.String(), fmt.Sprintf("%s (task %s) changed the write fence %s -> %s owned by task %q", c.desc, c.guardTaskID(), fenceOf(preM), fenceOf(postM), preM.WriteFenceToken), nil)
+		return false
+	}
+	if postM != nil {
+		if why := metaValid(*postM); why != "" {
+			r.FailSig("invalid-meta-after-step", c.kind.String(), fmt.Sprintf("%s left row %s: %s", c.desc, rtString(postM), why), nil)
+			return false
+		}
+		if preM != nil && int64(len(preM.ISR)) >= preM.MinISR && int64(len(postM.ISR)) < postM.MinISR {
+			r.FailSig("invalid-meta-after-step", c.kind.String()+"/minisr", fmt.Sprintf("%s left |ISR|=%d below MinISR=%d (before: %s after: %s)", c.desc, len(postM.ISR), postM.MinISR, rtString(preM), rtString(postM)), nil)
+			return false
+		}
+	}
+	return true
 }
